@@ -24,3 +24,46 @@ def d35_imported_graph_name_after_pickle(case, rec):
     if not prog:
         return False
     return any(s["op"] == "cut" and s["args"].get("how") in ("persist", "legacy", "legacy_noopt") for s in prog["steps"])
+
+
+def _last_step(case):
+    prog = case
+    if isinstance(case, dict) and "steps" not in case and "t" in case:
+        from .props import c02
+
+        prog, _ = c02.expand(case)
+    if not isinstance(prog, dict) or not prog.get("steps"):
+        return None, None
+    return prog, prog["steps"][-1]
+
+
+def d9_groupby_fill_disk_shuffle(case, rec):
+    """C02: groupby ffill/bfill as the final operation, disk shuffle configured."""
+    if rec.get("kind") != "differs-from-pandas":
+        return False
+    prog, last = _last_step(case)
+    if last is None or (prog.get("config") or {}).get("shuffle") != "disk":
+        return False
+    return last["op"] == "groupby_window" and last["args"].get("how") in ("ffill", "bfill")
+
+
+def d44_groupby_first_last_split_out_disk(case, rec):
+    """C02: groupby first/last with split_out > 1 as the final operation, disk shuffle configured."""
+    if rec.get("kind") != "differs-from-pandas":
+        return False
+    prog, last = _last_step(case)
+    if last is None or (prog.get("config") or {}).get("shuffle") != "disk":
+        return False
+    a = last["args"]
+    hows = {a.get("how")} | set((a.get("agg") or {}).values())
+    return last["op"] == "groupby_agg" and (a.get("split_out") or 1) > 1 and bool(hows & {"first", "last"})
+
+
+def d12_groupby_idx_extreme(case, rec):
+    """C02: groupby idxmin/idxmax as the final operation (wrong for any layout in which a group spans partitions)."""
+    if rec.get("kind") != "differs-from-pandas":
+        return False
+    prog, last = _last_step(case)
+    if last is None:
+        return False
+    return last["op"] == "groupby_agg" and last["args"].get("how") in ("idxmax", "idxmin")
